@@ -391,12 +391,44 @@ func C01(c *core.Ctx) {
 		})
 		c.Floor("R1.4", "appends to the match list", len(apps), 1)
 		name := ssa.Value(fm.Params[1])
+		// the node whose PIT entries are examined: N in "range N.pitEntries"
+		var nodeN ssa.Value
+		nNodes := 0
+		core.Instrs(fm, func(in ssa.Instruction) {
+			if fa, ok := in.(*ssa.FieldAddr); ok {
+				if _, f := core.FieldAddrName(fa); f == "pitEntries" {
+					if nodeN == nil || nodeN != fa.X {
+						nNodes++
+					}
+					nodeN = fa.X
+				}
+			}
+		})
+		if nNodes != 1 {
+			c.Und("R1.4", "name-match-node", p.Pos(fm.Pos()), fmt.Sprintf("expected exactly one node whose pitEntries are scanned, found %d", nNodes))
+		}
+		isEntryOfN := func(v ssa.Value) bool { // v = N.pitEntries[i]
+			u, ok := core.Strip(v).(*ssa.UnOp)
+			if !ok {
+				return false
+			}
+			ia, ok := u.X.(*ssa.IndexAddr)
+			if !ok {
+				return false
+			}
+			b, ok := core.FieldOf(ia.X, "pitEntries")
+			return ok && nodeN != nil && core.Strip(b) == core.Strip(nodeN)
+		}
 		cbp := &core.Atom{Name: "entry.canBePrefix", Match: func(cond ssa.Value) (int, int) {
-			if _, ok := core.FieldOf(cond, "canBePrefix"); ok {
+			if b, ok := core.FieldOfDeep(cond, "canBePrefix"); ok && isEntryOfN(b) {
 				return 1, -1
 			}
-			if isCallTo(cond, core.CalleeID{Pkg: "fw/table", Recv: "*", Name: "CanBePrefix"}) {
-				return 1, -1
+			if cl, ok := core.Strip(cond).(*ssa.Call); ok {
+				if _, ok := core.IsCall(cl, core.CalleeID{Pkg: "fw/table", Recv: "*", Name: "CanBePrefix"}); ok {
+					if rv, _ := core.CallArgs(&cl.Call); rv != nil && isEntryOfN(rv) {
+						return 1, -1
+					}
+				}
 			}
 			return 0, 0
 		}}
@@ -405,7 +437,10 @@ func C01(c *core.Ctx) {
 			if !ok || (op != token.EQL && op != token.NEQ) {
 				return 0, 0
 			}
-			isDepth := func(v ssa.Value) bool { _, ok := core.FieldOf(v, "depth"); return ok }
+			isDepth := func(v ssa.Value) bool {
+				b, ok := core.FieldOf(v, "depth")
+				return ok && nodeN != nil && core.Strip(b) == core.Strip(nodeN)
+			}
 			isLen := func(v ssa.Value) bool { l, ok := core.LenOf(v); return ok && l == name }
 			if (isDepth(x) && isLen(y)) || (isDepth(y) && isLen(x)) {
 				return core.Iff(op == token.EQL)
